@@ -88,7 +88,25 @@ NORM2 = z3.Function("norm2", _REAL, _REAL, _REAL)
 UF = {n: z3.Function("uf_" + n, _REAL, _REAL) for n in ("exp", "log", "tanh", "sqrt", "cos", "sin", "sigmoid")}
 
 
-def norm2_axioms(formulas=(), exact=False):
+def _norm2_apps(formulas):
+    seen = set()
+    stack = list(formulas)
+    apps = []
+    while stack:
+        t = stack.pop()
+        if t.get_id() in seen:
+            continue
+        seen.add(t.get_id())
+        if z3.is_quantifier(t):
+            continue
+        if z3.is_app(t):
+            if t.decl().eq(NORM2):
+                apps.append(t)
+            stack.extend(t.children())
+    return apps
+
+
+def norm2_axioms(formulas=(), exact=False, goal=()):
     """Axioms of the Euclidean norm of a 2-vector (uninterpreted, A1): non-negative,
     zero iff the vector is zero (quantified, create no new terms); evenness
     norm2(x,y) = norm2(-x,-y) instantiated for the ground applications present."""
@@ -116,6 +134,10 @@ def norm2_axioms(formulas=(), exact=False):
         if exact:
             # concrete-dimension runs (counterexample search): the true Euclidean norm, so that models replay
             ax.append(z3.And(a >= 0, a * a == a.arg(0) * a.arg(0) + a.arg(1) * a.arg(1)))
+    # ground non-negativity for the applications of the GOAL only (found by unit propagation, whatever the quantifier engine
+    # does; for every application of the context it makes unrelated sums of distances relevant and slows their proofs down)
+    for a in _norm2_apps(goal)[:50]:
+        ax.append(a >= 0)
     return ax
 
 
@@ -786,6 +808,23 @@ def setitem(t: SymTensor, index, value):
             v = value
         t.write(lambda idx, old: ite(ms(idx[:mr]), _cast_like(v, t.dtype), old))
         return
+    full_ = lambda i: isinstance(i, slice) and i.start is None and i.stop is None and i.step is None
+    tpos = [k for k, i in enumerate(index) if T(i)]
+    if (len(tpos) == 1 and all(full_(i) for k, i in enumerate(index) if k != tpos[0]) and index[tpos[0]].dtype == "i" and index[tpos[0]].rank <= 1
+            and (index[tpos[0]].rank == 0 or isinstance(index[tpos[0]].shape[0], int)) and (not T(value) or value.rank == 0)):
+        # t[:, idx, ...] = scalar with a short index tensor: the whole slices at the listed positions are overwritten
+        k, it = tpos[0], index[tpos[0]]
+        cnt = 1 if it.rank == 0 else it.shape[0]
+        if cnt <= 32:
+            its = it.snap()
+            pos = [its(()) if it.rank == 0 else its((q,)) for q in range(cnt)]
+            for q, pv in enumerate(pos):
+                ctx.wf(f"setitem-index{q}-in-range", AND(zint(pv) >= -zint(t.shape[k]), zint(pv) < zint(t.shape[k])))
+            v = value.at() if T(value) else value
+            n_k = t.shape[k]
+            hit = lambda J: OR(*[OR(eqv(J[k], pv), eqv(J[k], zint(pv) + zint(n_k))) for pv in pos]) if pos else False
+            t.write(lambda J, old: ite(hit(J), _cast_like(v, t.dtype), old))
+            return
     if any(T(i) for i in index):
         return _adv_setitem(t, index, value)
     view = getitem(t, index)
